@@ -239,8 +239,59 @@ pub fn f_fold_sum(a: u32, b: u32) -> u64 {
     s as u64 ^ (f << 8) ^ (m << 40)
 }
 
+pub fn f_range_loop(a: u32, b: u32) -> u64 {
+    let n = (a ^ b).count_ones();
+    let mut s = 0u64;
+    for i in 0..n {
+        s = s.wrapping_mul(3).wrapping_add(i as u64 + 1);
+    }
+    for j in (b % 5)..(a % 7) {
+        s = s.wrapping_add(j as u64 * 1000);
+    }
+    s
+}
+
+pub fn f_cell(a: u32, b: u32) -> u64 {
+    let c: std::cell::Cell<Option<(u32, Option<u32>)>> = std::cell::Cell::new(None);
+    let mut s = 0u64;
+    for x in [a, b, a, 7, b] {
+        if let Some((k, v)) = c.get() {
+            if k == x {
+                s = s.wrapping_mul(5).wrapping_add(v.unwrap_or(9) as u64);
+                continue;
+            }
+        }
+        let v = if x % 2 == 0 { Some(x / 2) } else { None };
+        c.set(Some((x, v)));
+        s = s.wrapping_mul(7).wrapping_add(1);
+    }
+    s.wrapping_add(c.replace(None).map_or(0, |p| p.0 as u64))
+}
+
+pub fn f_binary_search(a: u32, b: u32) -> u64 {
+    const T: [u32; 7] = [0, 2, 7, 10, 12, 100, 65536];
+    let x = match T.binary_search(&a) {
+        Ok(i) => i as u64,
+        Err(i) => 100 + i as u64,
+    };
+    let y = if T.binary_search(&b).is_ok() { 1 } else { 0 };
+    x * 2 + y
+}
+
+pub fn f_map_or(a: u32, b: u32) -> u64 {
+    let o = if a % 3 == 0 { None } else { Some(a) };
+    let t = o.map_or(false, |v| v.wrapping_add(1) == b.wrapping_add(1));
+    let u = o.map_or(b as u64, |v| v as u64 * 2);
+    let w = o.filter(|&w| w != 1).is_some();
+    u.wrapping_mul(4) + if t { 2 } else { 0 } + if w { 1 } else { 0 }
+}
+
 pub const ALL: &[(&str, fn(u32, u32) -> u64)] = &[
     ("f_iter_sum_loop", f_iter_sum_loop),
+    ("f_range_loop", f_range_loop),
+    ("f_cell", f_cell),
+    ("f_binary_search", f_binary_search),
+    ("f_map_or", f_map_or),
     ("f_enumerate", f_enumerate),
     ("f_rev", f_rev),
     ("f_skip_take", f_skip_take),
